@@ -4,6 +4,8 @@ package state
 
 import (
 	"bytes"
+	abci "github.com/tendermint/tendermint/abci/types"
+	tmstate "github.com/tendermint/tendermint/proto/tendermint/state"
 	"time"
 
 	"github.com/tendermint/tendermint/crypto"
@@ -247,4 +249,87 @@ func VP_C06_ValidateInitial() {
 	verr := validateBlock(st, block)
 	vp.Reach("checked")
 	vp.Assert((verr == nil) == genuine, "C06.validate.initial-block-accepted-exactly-when-genuine")
+}
+
+// ---------------------------------------------------------------- C06-H2: the transition is a function, and its result validates
+
+func vpSignCommit(st State, keys []ed25519.PrivKey, h int64, id types.BlockID, vals *types.ValidatorSet, t time.Time) *types.Commit {
+	sigs := make([]types.CommitSig, len(vals.Validators))
+	for i, v := range vals.Validators {
+		var key ed25519.PrivKey
+		for _, k := range keys {
+			if string(k.PubKey().Address()) == string(v.Address) {
+				key = k
+			}
+		}
+		vote := &types.Vote{Type: tmproto.PrecommitType, Height: h, Round: 0, BlockID: id, Timestamp: t, ValidatorAddress: v.Address, ValidatorIndex: int32(i)}
+		sigs[i] = types.CommitSig{BlockIDFlag: types.BlockIDFlagCommit, ValidatorAddress: v.Address, Timestamp: t, Signature: vpSign(key, types.VoteSignBytes(vpC06Chain, vote.ToProto()))}
+	}
+	return types.NewCommit(h, 0, id, sigs)
+}
+
+// Blocks 2, 3 and 4 are built by correct proposers and applied with the real updateState; the
+// application answers block 2 with arbitrary validator and parameter updates.  Every block validates
+// against the state it was built from, and computing a transition twice (under any map iteration
+// orders) gives byte-identical states.
+func VP_C06_Transition() {
+	vp.Opt("maporder", 1)
+	st, keys, id1, t1 := vpC06State()
+	joiner := ed25519.GenPrivKeyFromSecret([]byte("c6-transition-joiner"))
+	keys = append(keys, joiner)
+	var updates []*types.Validator
+	switch vp.Choice("validator-update", 5) {
+	case 1: // a power change
+		updates = append(updates, types.NewValidator(keys[0].PubKey(), int64(vp.Range("new-power", 1, 3))*7))
+	case 2: // a removal
+		updates = append(updates, types.NewValidator(keys[1].PubKey(), 0))
+	case 3: // a newcomer
+		updates = append(updates, types.NewValidator(joiner.PubKey(), 4))
+	case 4: // all at once, in either order
+		updates = append(updates, types.NewValidator(keys[1].PubKey(), 0), types.NewValidator(joiner.PubKey(), 4))
+		if vp.Bool("reversed") {
+			updates[0], updates[1] = updates[1], updates[0]
+		}
+	}
+	resp := &tmstate.ABCIResponses{BeginBlock: &abci.ResponseBeginBlock{}, EndBlock: &abci.ResponseEndBlock{},
+		DeliverTxs: []*abci.ResponseDeliverTx{{Code: 0, Data: []byte{1}}, {Code: uint32(vp.Range("tx-code", 0, 1)), GasUsed: 5}}}
+	if vp.Bool("parameter-update") {
+		resp.EndBlock.ConsensusParamUpdates = &abci.ConsensusParams{Block: &abci.BlockParams{MaxBytes: int64(vp.Range("max-bytes-kb", 1, 3)) * 1024 * 1024, MaxGas: -1}}
+	}
+	cur := st
+	prevID, prevTime := id1, t1
+	for h := int64(2); h <= 4; h++ {
+		commit := vpSignCommit(cur, keys, h-1, prevID, cur.LastValidators, prevTime.Add(time.Second))
+		block, parts := cur.MakeBlock(h, []types.Tx{{byte(h)}, {byte(h), 1}}, commit, nil, cur.Validators.GetProposer().Address)
+		vp.Assert(validateBlock(cur, block) == nil, "C06.transition.block-built-by-a-correct-proposer-validates-against-the-state-it-extends")
+		id := types.BlockID{Hash: block.Hash(), PartSetHeader: parts.Header()}
+		r := &tmstate.ABCIResponses{BeginBlock: &abci.ResponseBeginBlock{}, EndBlock: &abci.ResponseEndBlock{}, DeliverTxs: []*abci.ResponseDeliverTx{{}, {}}}
+		var ups []*types.Validator
+		if h == 2 {
+			r, ups = resp, updates
+		}
+		copyUps := func() []*types.Validator {
+			out := make([]*types.Validator, len(ups))
+			for i, u := range ups {
+				out[i] = u.Copy()
+			}
+			return out
+		}
+		n1, err1 := updateState(cur.Copy(), id, &block.Header, r, copyUps())
+		n2, err2 := updateState(cur.Copy(), id, &block.Header, r, copyUps())
+		vp.Assert((err1 == nil) == (err2 == nil), "C06.transition.same-inputs-same-verdict")
+		if err1 != nil {
+			vp.Reach("update-refused?")
+			return
+		}
+		n1.AppHash, n2.AppHash = []byte{byte(h)}, []byte{byte(h)}
+		vp.Assert(bytes.Equal(n1.Bytes(), n2.Bytes()), "C06.transition.same-block-on-the-same-state-gives-byte-identical-next-states")
+		vp.Assert(n1.LastBlockHeight == h && n1.LastBlockID.Equals(id) && vpSameSet(n1.Validators, cur.NextValidators) && vpSameSet(n1.LastValidators, cur.Validators), "C06.transition.next-state-takes-over-height-id-and-validator-sets")
+		cur, prevID, prevTime = n1, id, block.Time
+	}
+	vp.Reach("three-blocks-applied")
+}
+
+func vpSameSet(a, b *types.ValidatorSet) bool {
+	return bytes.Equal(a.Hash(), b.Hash())
 }
